@@ -277,6 +277,44 @@ def sendStrict (c : Nat) (jobs : List Job) (slots : List (Option Slot)) (stream 
   attemptsOf evs == (refMarks c jobs slots stream).map (·.1) &&
   (marksOf evs).isSublist (refMarks c jobs slots stream)
 
+/-! #### oversized reports are truncated
+
+What qmail-send accepts from one report is visible in its log: `delivery <n>: success: <text>`,
+`… failure: <text>`, `… deferral: <text>` (one line per report, `logsafe` keeps the length of the
+text and never emits a newline or a blank).  A report is `delnum letter text NUL`, so a report line
+of at most REPORTMAX bytes carries at most REPORTMAX − 2 bytes of text; the only text that may be
+longer is the one qmail-send itself extends for a message that has exceeded its queue lifetime
+(`Z` rewritten to `D`, last byte of the line replaced by the fixed sentence `DYINGMSG`). -/
+
+/-- "delivery " -/
+def DELIVERY : Bytes := [100, 101, 108, 105, 118, 101, 114, 121, 32]
+
+/-- the report text (with the final newline) carried by a log line that starts with "delivery ":
+what follows the first ':', one blank, one word and one more blank; `none` for any other line -/
+def reportTextOf (line : Bytes) : Option Bytes :=
+  if line.take 9 = DELIVERY then
+    some ((((line.dropWhile (· != 58)).drop 2).dropWhile (· != 32)).drop 1)
+  else none
+
+/-- the longest report text that fits a report line of REPORTMAX bytes -/
+def TEXTMAX : Nat := Nq.Gen.REPORTMAX - 2
+
+/-- the sentence appended for a message past its queue lifetime, as it ends a log line -/
+def DYINGLOG : Bytes := logsafe DYINGMSG ++ [LF]
+
+/-- `t` = logged report text + newline: at most TEXTMAX bytes of text, or at most TEXTMAX − 1 bytes
+followed by the fixed sentence -/
+def textFits (t : Bytes) : Bool :=
+  decide (t.length ≤ TEXTMAX + 1) ||
+  (decide (t.length ≤ TEXTMAX - 1 + DYINGLOG.length) && DYINGLOG.isSuffixOf t)
+
+/-- **oversized reports are truncated**: no log line (one `log` event per line) reports a delivery
+with more report text than fits a REPORTMAX-byte report line -/
+def truncOK (evs : List Ev) : Bool :=
+  evs.all (fun e => match e with
+    | .log t => (match reportTextOf t with | some x => textFits x | none => true)
+    | _ => true)
+
 end send
 
 end Nq.Spec.TB
